@@ -15,6 +15,7 @@ import YalafiVerif.Proofs.PlainHeading
 import YalafiVerif.Proofs.PlainItem
 import YalafiVerif.Generated.Init
 import YalafiVerif.Properties.PlainRefStmt
+import YalafiVerif.Properties.PlainItemLStmt
 namespace Yalafi
 
 theorem C04_latexError_anchor (T : Tables) (hm : T.mark ≠ []) (err : Str) (pos n : Nat) (hp : pos < n) :
